@@ -80,7 +80,7 @@ def showOutcome (cfg : Cfg) (F : NcFile) (dvs : List String) : String :=
   | .error e => s!"raised:{e.name} closed={c}"
   | .ok r => s!"ok closed={c} " ++ String.intercalate " " (dvs.map (showField r))
 
-/-- `old=2`: the patched and the coded model side by side, `<patched> || <coded>`. -/
+/-- `old=2` (diagnostics): `<patched = HEAD> || <HEAD before 7931fa5> || <coded>`. -/
 def runRead (kv : KV) : String :=
   match (do
     let F ← parseFile kv
@@ -89,7 +89,7 @@ def runRead (kv : KV) : String :=
   | none => "bad-op"
   | some (F, dvs) =>
     match kv.get? "old" with
-    | some "2" => showOutcome patched F dvs ++ " || " ++ showOutcome head F dvs ++ " || " ++ showOutcome coded F dvs
+    | some "2" => showOutcome patched F dvs ++ " || " ++ showOutcome leakyVcrs F dvs ++ " || " ++ showOutcome coded F dvs
     | _ => match parseOld kv with
       | none => "bad-op"
       | some cfg => showOutcome cfg F dvs
